@@ -2033,6 +2033,8 @@ class Discretize(Harness):
 
 HARNESSES = [SliceArith(), TimeDomain(), FreqDomain(), History(),
              Discretize()]
+for _h in HARNESSES:      # many tiny work units: share forks
+    type(_h).units_per_process = 8
 
 # concrete profiles are built here, outside any symbolic context
 for _lay in LAYOUTS:
